@@ -30,6 +30,7 @@ flows! {
     c41_ref_top(a: u32) -> (echo: u32, out: u32);
     c41_ref_tick_two_uses(a: u32) -> (out: (u32, u32));
     c41_ref_mut_then_ref(a: u32) -> (out: u32);
+    c41_ref_borrower_after_consumer(a: u32) -> (first: (u32, u32), second: u32);
     c41_tee_two_defers(a: u32) -> (out: (u32, usize));
     c31_batch(a: u32) -> (out: Vec<u32>);
     c31_snapshot(a: u32) -> (out: (usize, usize));
